@@ -756,3 +756,309 @@ def same(a, b):
     if isinstance(a, (bool, int, str, bytes)):
         return a == b
     return False
+
+
+# =====================================================================================
+# The decoder (C06): which JSON documents decode (dec_ok) and to what (dec_val)
+# Context: new-style JSON, no msgpack, no alias validators, caller without extra permissions.
+# Written to follow json_serializer.rst plus the accept / reject list of C06; the
+# compatibility rules (lenient mode) follow evolve_spec.rst.
+# =====================================================================================
+import binascii
+
+
+def dctx_ok(d):
+    return (isinstance(d.caller_permissions, ss.CallerPermissionsDefault)
+            and d._old_style is False and d._for_msgpack is False and d.alias_validators is None
+            and isinstance(d.strict, bool))
+
+
+def is_json(j):
+    """what json.loads produces (object keys are strings); shallow"""
+    return j is None or isinstance(j, (bool, int, float, str, list, dict))
+
+
+@spec(recursive=True, returns='bool')
+def json_deep(j):
+    """a JSON value all the way down (what json.loads returns)"""
+    if isinstance(j, list):
+        return all(json_deep(x) for x in j)
+    if isinstance(j, dict):
+        return all(isinstance(k, str) and json_deep(k) and json_deep(x) for k, x in j.items())
+    return is_json(j)
+
+
+def json_keys_str(j):
+    return not isinstance(j, dict) or all(isinstance(k, str) for k in j)
+
+
+def _strptime_ok_facts(j, fmt, r):
+    """strptime only accepts text"""
+    return not r or (isinstance(j, str) and isinstance(fmt, str))
+
+
+@spec(opaque=True, returns='bool', facts=_strptime_ok_facts)
+def strptime_ok(j, fmt):
+    """axiom TS: strptime accepts the text (raises only TypeError / ValueError otherwise)"""
+    try:
+        datetime.datetime.strptime(j, fmt)
+        return True
+    except (TypeError, ValueError):
+        return False
+
+
+@spec(opaque=True, returns='val')
+def strptime_val(j, fmt):
+    return datetime.datetime.strptime(j, fmt)
+
+
+def b64_ok(j):
+    """axiom B64: b64decode raises binascii.Error / TypeError for what is not Base64 -- and
+    ValueError for a str with non-ASCII characters"""
+    return isinstance(j, (str, bytes)) and b64_decodes(j)
+
+
+def _b64_decodes_facts(j, r):
+    """b64decode refuses a str with non-ASCII characters"""
+    return not r or not isinstance(j, str) or j.isascii()
+
+
+@spec(opaque=True, returns='bool', facts=_b64_decodes_facts)
+def b64_decodes(j):
+    try:
+        base64.b64decode(j)
+        return True
+    except (TypeError, ValueError, binascii.Error):
+        return False
+
+
+@spec(opaque=True, returns='val')
+def b64_val(j):
+    return base64.b64decode(j)
+
+
+def prim_dec_ok(t, j, strict):
+    if isinstance(t, bv.Timestamp):
+        return strptime_ok(j, t.format)
+    if isinstance(t, bv.Bytes):
+        return b64_ok(j)
+    if isinstance(t, bv.Void):
+        return not strict or j is None
+    return True
+
+
+def prim_dec_val(t, j):
+    if isinstance(t, bv.Timestamp):
+        return strptime_val(j, t.format)
+    if isinstance(t, bv.Bytes):
+        return b64_val(j)
+    if isinstance(t, bv.Void):
+        return None
+    return j
+
+
+def tree_subtype_ok(t, j, strict):
+    """which subtype an enumerated-subtype document denotes"""
+    return (isinstance(j, dict) and '.tag' in j and isinstance(j['.tag'], str)
+            and (((j['.tag'],) in t.definition._tag_to_subtype_
+                  and not isinstance(t.definition._tag_to_subtype_[(j['.tag'],)], bv.StructTree))
+                 or ((j['.tag'],) not in t.definition._tag_to_subtype_ and not strict
+                     and t.definition._is_catch_all_)))
+
+
+def tree_subtype(t, j):
+    if (j['.tag'],) in t.definition._tag_to_subtype_:
+        return t.definition._tag_to_subtype_[(j['.tag'],)]
+    return t
+
+
+# ---------------------------------------------------------------- Dec: acceptance and value
+
+def has_default_v(t):
+    """Validator.has_default(): Void, Nullable, and structs without required fields"""
+    if isinstance(t, (bv.Void, bv.Nullable)):
+        return True
+    if isinstance(t, bv.Struct):
+        return not t.definition._has_required_fields
+    return False
+
+
+def field_dec_ok(f, j, strict):
+    """field f = (name, validator) of a struct document j"""
+    if f[0] in j:
+        return dec_ok(f[1], j[f[0]], strict) and assignable(f[1], dec_val(f[1], j[f[0]], strict))
+    return True        # an absent field never fails here; presence is checked after all fields
+
+
+def known_key(t, k):
+    return k in t.definition._all_field_names_ or k.startswith('.tag')
+
+
+def dec_struct_ok(t, j, strict):
+    if j is None and has_default_v(t):
+        return True
+    return (isinstance(j, dict)
+            and (not strict or all(known_key(t, k) for k in j))
+            and all(field_dec_ok(f, j, strict) for f in t.definition._all_fields_)
+            and all(field_after_decode_present(t, f, j) for f in t.definition._all_fields_))
+
+
+def field_after_decode_present(t, f, j):
+    """required-field presence after decoding: given, defaulted by its type, or
+    declared with a default / nullable"""
+    return (f[0] in j or has_default_v(f[1])
+            or getattr(t.definition, f[0]).nullable or getattr(t.definition, f[0]).default is not NO_DEFAULT)
+
+
+def union_tag_known(t, tag):
+    return tag in t.definition._tagmap
+
+
+def dec_union_str_ok(t, j, strict):
+    """the compact form: the tag itself as a string"""
+    if union_tag_known(t, j):
+        return (isinstance(t.definition._tagmap[j], (bv.Void, bv.Nullable))
+                and j != t.definition._catch_all)
+    return not strict and t.definition._catch_all is not None
+
+
+def dec_union_ok(t, j, strict):
+    if isinstance(j, str):
+        return dec_union_str_ok(t, j, strict)
+    return isinstance(j, dict) and dec_union_dict_ok(t, j, strict)
+
+
+def only_keys(j, tag):
+    return all(k == tag or k == '.tag' for k in j)
+
+
+def dec_union_dict_ok(t, j, strict):
+    if '.tag' not in j or not isinstance(j['.tag'], str):
+        return False
+    if not union_tag_known(t, j['.tag']):
+        return not strict and t.definition._catch_all is not None
+    if j['.tag'] == t.definition._catch_all:
+        return False
+    return dec_member_ok(t.definition._tagmap[j['.tag']], j['.tag'], j, strict) and member_assignable(t, j, strict)
+
+
+def dec_member_ok(tv, tag, j, strict):
+    """the payload of tag in document j, for the member validator tv"""
+    if isinstance(unwrap_nullable(tv), bv.Void):
+        return not strict or ((tag not in j or j[tag] is None) and only_keys(j, tag))
+    if flattened_member(tv):
+        return (isinstance(tv, bv.Nullable) and len(j) == 1) or dec_ok(unwrap_nullable(tv), j, strict)
+    if tag in j:
+        return dec_ok(unwrap_nullable(tv), j[tag], strict) and only_keys(j, tag)
+    return isinstance(tv, bv.Nullable) and only_keys(j, tag)
+
+
+def dec_member_val(tv, tag, j, strict):
+    if isinstance(unwrap_nullable(tv), bv.Void):
+        return None
+    if flattened_member(tv):
+        if isinstance(tv, bv.Nullable) and len(j) == 1:
+            return None
+        return dec_val(unwrap_nullable(tv), j, strict)
+    if tag in j:
+        return dec_val(unwrap_nullable(tv), j[tag], strict)
+    return None
+
+
+def member_assignable(t, j, strict):
+    """Union.__init__ accepts the decoded payload"""
+    return (isinstance(unwrap_nullable(t.definition._tagmap[j['.tag']]), bv.Void)
+            or union_member_ok(t.definition._tagmap[j['.tag']],
+                               dec_member_val(t.definition._tagmap[j['.tag']], j['.tag'], j, strict)))
+
+
+@spec(recursive=True, returns='bool')
+def dec_ok(t, j, strict):
+    """json_compat_obj_decode_helper(t, j) succeeds"""
+    if isinstance(t, bv.StructTree):
+        return tree_subtype_ok(t, j, strict) and dec_struct_ok(tree_subtype(t, j), j, strict)
+    if isinstance(t, bv.Struct):
+        return dec_struct_ok(t, j, strict)
+    if isinstance(t, bv.Union):
+        return dec_union_ok(t, j, strict)
+    if isinstance(t, bv.List):
+        return isinstance(j, list) and all(dec_ok(t.item_validator, x, strict) for x in j)
+    if isinstance(t, bv.Map):
+        return isinstance(j, dict) and all(dec_ok(t.key_validator, k, strict) and dec_ok(t.value_validator, x, strict)
+                                           for k, x in j.items())
+    if isinstance(t, bv.Nullable):
+        return j is None or dec_ok(t.validator, j, strict)
+    return prim_dec_ok(t, j, strict)
+
+
+def _dec_obj_facts(t, j, strict, r):
+    """a decoded struct / union is an instance of (exactly) the definition class"""
+    return isinstance(r, bb.Struct) or isinstance(r, bb.Union) or r is None
+
+
+@spec(opaque=True, returns='val')
+def dec_struct_obj(t, j, strict):
+    """the instance decode_struct builds (reference implementation; opaque to the solver)"""
+    ins = object.__new__(t.definition)
+    for f in t.definition._all_fields_:
+        object.__setattr__(ins, slot_name(f[0]), NOT_SET)
+    if j is None:
+        return ins
+    for f in t.definition._all_fields_:
+        if f[0] in j:
+            object.__setattr__(ins, slot_name(f[0]),
+                               stored_value(getattr(t.definition, f[0]), dec_val(f[1], j[f[0]], strict)))
+        elif has_default_v(f[1]):
+            object.__setattr__(ins, slot_name(f[0]),
+                               stored_value(getattr(t.definition, f[0]), t_default(f[1])))
+    return ins
+
+
+def t_default(t):
+    if isinstance(t, bv.Struct):
+        return dec_struct_obj(t, None, False)
+    return None
+
+
+def new_union(D, tag, value):
+    u = object.__new__(D)
+    object.__setattr__(u, '_tag', tag)
+    object.__setattr__(u, '_value', value)
+    return u
+
+
+@spec(opaque=True, returns='val')
+def dec_union_obj(t, j, strict):
+    if isinstance(j, str):
+        if union_tag_known(t, j):
+            return new_union(t.definition, j, None)
+        return new_union(t.definition, t.definition._catch_all, None)
+    if not union_tag_known(t, j['.tag']):
+        return new_union(t.definition, t.definition._catch_all, None)
+    return new_union(t.definition, j['.tag'],
+                     dec_member_val(t.definition._tagmap[j['.tag']], j['.tag'], j, strict))
+
+
+@spec(recursive=True, returns='val')
+def dec_val(t, j, strict):
+    if isinstance(t, bv.StructTree):
+        return dec_struct_obj(tree_subtype(t, j), j, strict)
+    if isinstance(t, bv.Struct):
+        return dec_struct_obj(t, j, strict)
+    if isinstance(t, bv.Union):
+        return dec_union_obj(t, j, strict)
+    if isinstance(t, bv.List):
+        return [dec_val(t.item_validator, x, strict) for x in j]
+    if isinstance(t, bv.Map):
+        return {dec_val(t.key_validator, k, strict): dec_val(t.value_validator, x, strict) for k, x in j.items()}
+    if isinstance(t, bv.Nullable):
+        if j is None:
+            return None
+        return dec_val(t.validator, j, strict)
+    return prim_dec_val(t, j)
+
+
+def decode_outcome(t, j, strict):
+    if dec_ok(t, j, strict):
+        return Ret(dec_val(t, j, strict))
+    return Raise(bv.ValidationError)
